@@ -220,6 +220,8 @@ def run():
     ops_stream(ck, info, names)
     # ------------------------------------------------------------------ LIMIT/OFFSET/FETCH model vs compiler
     limit_stream(ck, info, names, I)
+    # ------------------------------------------------------------------ value-level clause model vs the hook of translate_select_pipeline
+    clauses_stream(ck, info, names, cases)
 
     ck.proof_broken_violation(found_input=bool([v for v in ck.violations if not v[2]]))
     ck.assumptions += ["tables t,u,v,`my table` have the columns of c07_gen.SCHEMA (closed schema for the model, CREATE TABLE for SQLite)",
@@ -316,3 +318,175 @@ def limit_stream(ck, info, names, I):
         if model is not None and tuple(model[k]) != got:
             ck.disagreement("LIMIT/OFFSET/FETCH shape differs from the model for %s on %s: model %s, compiler %s (%s)" % (c[4].replace("\n", " | "), c[0], model[k], got, sql),
                             {"kind": "limit", "src": c[4], "target": "sql." + c[0], "sql": sql, "model": list(model[k]), "compiler": list(got), "tags": [], "msg": ""}, lambda _c: None)
+
+
+CLAUSE_DIRECTED = [
+    "from t\ntake 2..4\ntake 2..", "from t\nsort a\ntake 3\ntake 2", "from t\ntake 5..3", "from t\ntake 3\ntake 5..", "from t\ntake 2..\ntake 3..\ntake ..4",
+    "from t\nselect {a}\ngroup {a} (take 1)\ntake 3", "from t\nselect {a, b}\ngroup {a, b} (take 1)\ntake 2..", "from t\nselect {x = a + 1}\ngroup {x} (take 1)\ntake 2..5",
+    "from t\ngroup {a, b, c, g, id} (take 1)\ntake 4", "from t\nsort {a, -b}\ntake 2..7\nfilter a > 1\ntake 3..", "from t\ntake 9223372036854775807..",
+    "from t\ntake 3..\ntake 9223372036854775807..", "from t\ntake ..9223372036854775807\ntake 2..", "from t\njoin u (==id)\ntake 2..3", "from t\nsort a\nderive {r = a + 1}\ntake 1..",
+    "from t\naggregate {n = count this}\ntake 1", "from t\nsort a\ntake 2\nsort b\ntake 1..1",
+]
+
+
+def clauses_stream(ck, info, names, cases):
+    """Tie B for Model/SelectClauses.v: every real call of translate_select_pipeline (hooks verif:select_pipeline_in / _mid / _out,
+    /repo commit 7400a50) vs `select_limit` evaluated in Coq on the row of the regenerated feature table -- limit, offset (+ROWS),
+    fetch, ORDER BY (number of keys or the forced key), compared field by field"""
+    srcs = list(CLAUSE_DIRECTED)
+    for s in (None, 1, 2, 4):
+        for e in (None, 1, 3, 7):
+            if s is None and e is None or (s is not None and e is not None and e < s):
+                continue
+            for pre in ("", "sort a\n"):
+                srcs.append("from t\n%stake %s..%s" % (pre, "" if s is None else s, "" if e is None else e))
+    pool = [c["src"] for c in cases if c["fam"] in ("take", "distinct", "core", "core_nosel", "sort_dropped", "empty", "sort_setop", "join") and "take" in c["src"]]
+    ck.rng.shuffle(pool)
+    srcs += pool[: ck.n(60, 1500)]
+    srcs = list(dict.fromkeys(srcs))
+    reqs = [{"src": src, "target": "sql." + d, "want": [], "msg_prefix": "verif:select_pipeline"} for src in srcs for d in names]
+    ans = harness("log", reqs)
+    feats = info.get("feats") or {}
+    calls = {}       # canonical key -> (dialect, nsort, distinct, proj, takes, expected, src)
+    I = {}           # text -> id
+
+    def tid(t):
+        return I.setdefault(t, len(I) + 1)
+    seen_hook = False
+    ok_compiles = 0
+    for rq, a in zip(reqs, ans):
+        stack, triples = [], []
+        for e in a.get("entries", []):
+            m = e.get("Message") or ""
+            for tag in ("in", "mid", "out"):
+                pre = "verif:select_pipeline_%s " % tag
+                if m.startswith(pre):
+                    seen_hook = True
+                    d = json.loads(m[len(pre):])
+                    if tag == "in":
+                        stack.append({"in": d})
+                    elif tag == "mid" and stack:
+                        stack[-1]["mid"] = d
+                    elif tag == "out" and stack:
+                        t = stack.pop()
+                        t["out"] = d
+                        triples.append(t)
+        if "ok" in a:
+            ok_compiles += 1
+            if stack:
+                ck.violation("hook lines of translate_select_pipeline do not pair up (in without out) in a successful compile", {"kind": "clauses-pairing", "src": rq["src"], "target": rq["target"]})
+        if "err" in a and stack and any("take range is too large" in (e.get("reason") or "") for e in a["err"]):
+            # the call that raised: the innermost `in` without `out`; the model has to fail on the same input
+            din = stack[-1]["in"]
+            tk = [(tr["start"], tr["end"]) for tr in din["pipeline"] if tr["kind"] == "Take"]
+            key = json.dumps([din["dialect"].lower(), 0, False, [], tk, "ERR"], sort_keys=True)
+            calls.setdefault(key, (din["dialect"].lower(), 0, False, [], tk, "ERR", rq))
+        for t in triples:
+            if "mid" not in t:
+                ck.violation("hook verif:select_pipeline_mid missing between in and out", {"kind": "clauses-pairing", "src": rq["src"], "target": rq["target"]})
+                continue
+            din, dmid, dout = t["in"], t["mid"], t["out"]
+            dn = din["dialect"].lower()
+            if dn in feats:
+                f = feats[dn]
+                if bool(f["use_fetch"]) != bool(din["use_fetch"]) or f.get("limit_for_bare_offset") != din["limit_for_bare_offset"]:
+                    ck.disagreement("dialect values read by translate_select_pipeline differ from the regenerated table for %s: %s vs use_fetch=%s limit_for_bare_offset=%s" % (
+                        dn, (f["use_fetch"], f.get("limit_for_bare_offset")), din["use_fetch"], din["limit_for_bare_offset"]),
+                        {"kind": "clauses-feat", "src": rq["src"], "target": rq["target"], "tags": [], "sql": "", "msg": ""}, lambda _c: None)
+            q = dout["query"]
+            if not isinstance(q, dict):
+                ck.violation("translate_select_pipeline returned a query the hook does not describe: %s" % q, {"kind": "clauses-unmodelled", "src": rq["src"], "target": rq["target"]})
+                continue
+            takes, nsort, distinct = [], 0, False
+            for tr in din["pipeline"]:
+                if tr["kind"] == "Take":
+                    takes.append((tr["start"], tr["end"]))
+                elif tr["kind"] == "Sort":
+                    nsort = len(tr["keys"])
+                elif tr["kind"] == "Distinct":
+                    distinct = True
+            proj = []
+            for it in dmid["projection"]:
+                if isinstance(it, str):
+                    proj.append(("w",))
+                elif "unnamed" in it:
+                    proj.append(("u", tid(it["unnamed"])))
+                else:
+                    proj.append(("a", tid(it["alias"])))
+            exp = {"limit": q["limit"], "offset": q["offset"], "fetch": (q["fetch"] or {}).get("quantity") if q["fetch"] else None, "order_by": q["order_by"],
+                   "limit_by": q["limit_by"], "fetch_flags": [q["fetch"]["with_ties"], q["fetch"]["percent"]] if q["fetch"] else None}
+            key = json.dumps([dn, nsort, distinct, proj, takes, exp], sort_keys=True)
+            calls.setdefault(key, (dn, nsort, distinct, proj, takes, exp, rq))
+    ck.coverage["clauses_compiles"] = ok_compiles
+    if ok_compiles and not seen_hook:
+        # fail closed: the observation point is gone (or the tree predates commit 7400a50)
+        ck.violation("no verif:select_pipeline_* line in any of %d successful compiles: the hook of translate_select_pipeline is missing" % ok_compiles,
+                     {"kind": "clauses-hook-missing"}, no_input=True)
+        return
+    keys = sorted(calls)
+
+    def cz(b):
+        if b is None:
+            return "None"
+        if isinstance(b, int):
+            return "(Some (BInt (%d)%%Z))" % b
+        return "(Some BOther)"
+    header = ("From Coq Require Import List NArith ZArith.\nFrom PV Require Import Lib.ListX Model.Checked Model.RangeArith Model.SelectClauses Gen.GenDialectFeat.\n"
+              "Import ListNotations.\n")
+    exprs = []
+    for k in keys:
+        dn, nsort, distinct, proj, takes, exp, rq = calls[k]
+        pj = "; ".join({"w": "PWild", "u": "PUnnamed %d%%N", "a": "PAliased %d%%N"}[p[0]] % p[1:] for p in proj)
+        tk = "; ".join("ERange %s %s" % (cz(s), cz(e)) for s, e in takes)
+        exprs.append("clauses_code (match find_feat feats [%s]%%N with Some f => select_limit (use_fetch f) (bare_offset_limit f) %d%%nat %s [%s] [%s] | None => Panic end)" % (
+            ";".join(str(ord(c)) for c in dn), nsort, "true" if distinct else "false", pj, tk))
+    try:
+        vals = coq_eval(header, exprs) if exprs else []
+    except RuntimeError as ex:
+        ck.coverage["clauses_model_error"] = str(ex)[-600:]
+        ck.violation("the clause model cannot be evaluated in Coq", {"kind": "coq-eval", "error": str(ex)[-800:]}, no_input=True)
+        return
+    names_of = {v: t for t, v in I.items()}
+    agree = 0
+    for k, v in zip(keys, vals):
+        dn, nsort, distinct, proj, takes, exp, rq = calls[k]
+        ck.count("clauses", k, nontrivial=bool(takes))
+        ck.stat("clauses", "takes:%d" % min(len(takes), 3))
+        ck.stat("clauses", "dialect:" + dn)
+        tag, body = v[0], v[1]
+        got = None
+        if exp == "ERR":
+            ck.stat("clauses", "error:take-range-too-large")
+            if tag == 0:
+                agree += 1
+            else:
+                ck.disagreement("compiler reports `take range is too large`, Model/SelectClauses.v returns a clause record: %s for %s" % (rq["src"].replace("\n", " | "), dn),
+                                {"kind": "clauses", "src": rq["src"], "target": rq["target"], "model": list(v), "compiler": "error", "tags": [], "sql": "", "msg": ""}, lambda _c: None)
+            continue
+        if tag == 1:
+            lk, lz, ls, off, fe, od = body
+            got = {"limit": None if lk == 0 else (str(lz) if lk == 1 else "".join(chr(c) for c in ls)),
+                   "offset": None if off[0] == 0 else {"value": str(off[1]), "rows": "Rows" if off[2] else "None"},
+                   "fetch": None if fe[0] == 0 else str(fe[1])}
+            if od[0] == 0:
+                ordok = len(exp["order_by"] or []) == od[1] and isinstance(exp["order_by"], (list, type(None)))
+                ck.stat("clauses", "order:keys" if od[1] else "order:none")
+            else:
+                want_expr = "(SELECT NULL)" if od[0] == 1 else names_of.get(od[2])
+                ordok = exp["order_by"] == [{"expr": want_expr, "asc": None, "nulls_first": None}]
+                ck.stat("clauses", "order:forced-null" if od[0] == 1 else "order:forced-first-item")
+            same = ordok and got["limit"] == exp["limit"] and got["offset"] == exp["offset"] and got["fetch"] == exp["fetch"] \
+                and exp["limit_by"] == 0 and exp["fetch_flags"] in (None, [False, False])
+            for fld in ("limit", "offset", "fetch"):
+                if got[fld] is not None:
+                    ck.stat("clauses", "has:" + fld)
+        else:
+            same = False
+        if same:
+            agree += 1
+        else:
+            ck.disagreement("clause tail of translate_select_pipeline differs from Model/SelectClauses.v on %s for %s: model %s (order %s), compiler %s" % (
+                rq["src"].replace("\n", " | "), dn, got if tag == 1 else ["Fail", "", "Panic"][tag], body[5] if tag == 1 else "-", exp),
+                {"kind": "clauses", "src": rq["src"], "target": rq["target"], "model": list(v), "compiler": exp, "tags": [], "sql": "", "msg": ""}, lambda _c: None)
+    ck.coverage["clauses_calls_distinct"] = len(keys)
+    ck.coverage["clauses_agree"] = agree
